@@ -305,7 +305,7 @@ impl Machine {
                 *self.shadow(s, o) = v;
             }
         }
-        self.cpu.bus.io_port_in = [0; 11];
+        self.cpu.bus.io_port_in.iter_mut().for_each(|x| *x = 0); // whatever its length
         self.cpu.vh_set_state_sum(0);
         self.cpu.vh_clear_pending();
         self.cpu.vh_reset_modules();
